@@ -123,7 +123,10 @@ def matchfile_from_alignment(
         raise ValueError("Version should >= 1.0.0")
 
     if not assume_part_unfolded:
-        # unfold score according to alignment
+        # unfold score according to alignment; unfold_part_alignment rewrites the
+        # score ids of the alignment it is given ("-1" for the first repetition):
+        # give it copies, the caller's alignment stays as it is
+        alignment = [dict(al_note) for al_note in alignment]
         spart = score.unfold_part_alignment(spart, alignment)
 
     # Info Header Lines
